@@ -121,6 +121,12 @@ def guarded(body, timeout, scenario="?"):
                 if isinstance(e, threading.Event):
                     e.set()
     stray = kill_descendants()
+    if "r" not in box:
+        try:
+            import _files_util
+            _files_util.remove_live_scratch()
+        except Exception:  # noqa
+            pass
     if stray and res.get("ok") and res.get("check_stray", False):
         res = dict(res, ok=False, scenario=scenario + "/stray-process", expected="no process left",
                    observed="%d descendant processes still alive" % len(stray))
